@@ -6,6 +6,9 @@ correspond  : unit U-links — Model/Renumber.lean (link, setNumber, write) vs M
               write_to_file; the written file is read by the Lean Spec (drv_spec) and compared number by number
 judge       : reference graph of the written file (Spec) vs the graph of the original transported along the
               renumbering; own numbers; nothing else changed relative to the unedited write
+histories   : number assignments, interleaved with reference-preserving operations that are not number assignments
+              (c04lib.NEUTRAL: add_cell_children_to_problem, re-append, geometry edits that add a leaf); model
+              Edit/stepE/runE, theorems C04_relink_frame / C04_wf_stepE / C04_history_neutral (Props/C04Neutral.lean)
 """
 
 import glob
@@ -37,6 +40,9 @@ THEOREMS = [
     "C04_history_universe",
     "C04_swap",
     "C04_link_wf",
+    "C04_relink_frame",
+    "C04_wf_stepE",
+    "C04_history_neutral",
 ]
 
 FEATURES = {"transforms", "periodic", "boundary", "universes", "complements", "thermal", "data_placement", "shortcuts", "message"}
@@ -177,6 +183,25 @@ def _exhaustive(text, nf0, depth, kinds):
             yield {"text": text, "limit": 128, "ops": ops}
 
 
+def _swap_then_neutral(text, nf0, rng):
+    """every swap through a temporary inside one kind, then one operation that is not a number assignment, then the write"""
+    nums = c04lib.own_numbers(nf0)
+    ncell, nsurf = len(nf0["cells"]), len(nf0["surfs"])
+    for k in ("surf", "tr", "mat", "cell", "univ"):
+        handles = list(nums["univ"]) if k == "univ" else list(range(len(nums[k])))
+        for ia in range(len(handles)):
+            for ib in range(ia + 1, len(handles)):
+                a, b = handles[ia], handles[ib]
+                na, nb = nums[k][ia], nums[k][ib]
+                swap = [[k, a, 9000 + na], [k, b, na], [k, a, nb]]
+                tails = [["relink", 0, 0], ["reappend:" + (k if k in ("cell", "surf", "tr") else "surf"), 0, 0]]
+                for _ in range(2):
+                    s = rng.choice([a, b]) if k == "surf" else rng.randrange(nsurf)
+                    tails.append([rng.choice(["geom+", "geom-"]), rng.randrange(ncell), s])
+                for t in tails:
+                    yield {"text": text, "limit": 128, "ops": swap + [t]}
+
+
 def _one(case, den0=None):
     """run one case completely in this process: impl, Spec readings, verdict (used for confirmation, shrinking, replay)"""
     res = c04lib.run_impl(case)
@@ -234,7 +259,11 @@ def run(chk):
         "renumber-then-restore, rotations inside a kind, rejected assignments (number in use, 0, negative), one number migrating through "
         "all kinds, and 'coincide' (an object whose number is also carried by another kind is renumbered / swapped / rotated while the "
         "other kind keeps the number; every third generated problem draws the numbers of all kinds from one small pool), over "
-        "cells, surfaces, materials, transforms and universes. Non-trivial = at least one assignment was accepted and the problem "
+        "cells, surfaces, materials, transforms and universes; and the same histories with operations that are not number assignments "
+        "and take no reference away interleaved and (mostly) placed between the last renumbering and the write: "
+        "problem.add_cell_children_to_problem(), the last member of problem.cells/surfaces/transforms removed and appended again, "
+        "cell.geometry = cell.geometry & +surface / & -surface / & ~cell (the 'before' of such a case is the problem with these operations "
+        "alone); on the four small problems every swap inside a kind followed by each kind of such operation. Non-trivial = at least one assignment was accepted and the problem "
         "has at least one modelled reference; distinct = distinct (text, history)."
     )
     chk.assumptions = [
@@ -251,7 +280,7 @@ def run(chk):
     ]
     leanio.prove(chk, "MontePyVerif.Props.C04", THEOREMS, "MontePyVerif.Renumber")
     if chk.thorough:
-        leanio.leanchecker(chk, ["MontePyVerif.Props.C04Core", "MontePyVerif.Props.C04"])
+        leanio.leanchecker(chk, ["MontePyVerif.Props.C04Core", "MontePyVerif.Props.C04Neutral", "MontePyVerif.Props.C04"])
     drv = leanio.Driver(chk, "drv_c04")
 
     # ------------------------------------------------------------------ texts
@@ -296,6 +325,8 @@ def run(chk):
     ncorpus = len(cases)
     hr = chk.rng("histories")
     per_text = chk.pick(3, 4)
+    hr2 = chk.rng("histories-neutral")
+    per_neutral = chk.pick(2, 3)
     nf_of = {}
     for ti, ((name, text, limit), d0) in enumerate(zip(texts, dens0)):
         try:
@@ -315,6 +346,14 @@ def run(chk):
             cases.append({"text": text, "limit": limit, "ops": ops})
             origin.append(name.split(":")[0] + ":" + pattern)
             case_den0.append(d0)
+        # the same with reference-preserving operations that are not number assignments between the renumberings and the write
+        for _ in range(per_neutral * (4 if name.startswith("small:") else 1)):
+            ops, pattern = c04lib.gen_history_neutral(hr2, nf0)
+            if not ops:
+                continue
+            cases.append({"text": text, "limit": limit, "ops": ops})
+            origin.append(name.split(":")[0] + ":" + pattern)
+            case_den0.append(d0)
     nrandom = len(cases) - ncorpus
     exh = []
     for ti in (0, 1, 2, 3):
@@ -325,6 +364,10 @@ def run(chk):
         # quick: all single assignments, and all pairs inside one kind for the all-sites problem's cells and universes
         exh += [c for c in _exhaustive(SMALL, nf_of[0], 2, ["univ", "tr"]) if len(c["ops"]) == 2]
         exh += [c for c in _exhaustive(SMALL_COINCIDE, nf_of[3], 2, ["univ", "tr"]) if len(c["ops"]) == 2]
+    # every swap inside a kind on the small problems, followed by every kind of reference-preserving operation
+    for ti in (0, 1, 2, 3):
+        if ti in nf_of:
+            exh += list(_swap_then_neutral(texts[ti][1], nf_of[ti], chk.rng(f"swap-neutral:{ti}")))
     for c in exh:
         cases.append(c)
         origin.append("exhaustive")
@@ -412,9 +455,16 @@ def run(chk):
             chk.count("skip:" + why)
             chk.note_case({"text": c["text"], "ops": c["ops"]}, False)
             continue
-        accepted = sum(1 for o in r["outs"] if o == "ok")
+        accepted = sum(1 for op, o in zip(c["ops"], r["outs"]) if o == "ok" and c04lib.is_number_op(op))
         for (k, _, _), o in zip(c["ops"], r["outs"]):
             chk.count(f"op:{k}:{o}")
+        if any(not c04lib.is_number_op(op) for op in c["ops"]):
+            chk.count("history:with-reference-preserving-operations")
+            seen_num = False
+            for op in c["ops"]:
+                seen_num = seen_num or c04lib.is_number_op(op)
+                if seen_num and not c04lib.is_number_op(op):
+                    chk.count("neutral-after-renumbering:" + op[0])
         nsites = len(c04lib.sites(nf0s[i], [])) if i in nf0s else 0
         if i in nf0s:
             for name, _, _ in c04lib.sites(nf0s[i], []).values():
